@@ -25,6 +25,7 @@ open Exec Driver
 
 /-- instruction on tags (as in the script) -/
 inductive TIns | s (t : Nat) | w (k : Nat) | a (k : Nat) | y | j (t : Nat) | z (d : Nat) | u (t : Nat) | n (k : Nat)
+  | t (k d : Nat)
   deriving DecidableEq
 
 def parseIns (tok : String) : Option (TIns × Nat) :=
@@ -34,6 +35,12 @@ def parseIns (tok : String) : Option (TIns × Nat) :=
   let rep := min rep 100000
   match body.toList with
   | 'y' :: [] => some (.y, rep)
+  | 't' :: rest =>
+    match (String.ofList rest).splitOn ":" with
+    | [k, d] => match k.toNat?, d.toNat? with
+      | some k, some d => some (.t k d, rep)
+      | _, _ => none
+    | _ => none
   | c :: rest =>
     match (String.ofList rest).toNat? with
     | none => none
@@ -119,6 +126,7 @@ def wellFormed (sc : Script) : Bool := Id.run do
         -- an mpsc channel has one receiving task; semaphores and Notify any number of waiting tasks
         if k % 3 == 1 && ((tprogs.filter (·.contains (.a k))).length) != 1 then return false
       | .n k => if k % 3 != 2 then return false
+      | .t k _ => if k % 3 != 2 then return false
       | .j t =>
         -- a JoinHandle is awaited once (by any task)
         if !tags.contains t then return false
@@ -135,7 +143,7 @@ def compile (sc : Script) : Compiled :=
   let tags := sc.tasks.toList.map (·.1)
   let progs := sc.tasks.toList.map (·.2.2) ++ sc.events.toList.map (·.2.2)
   let cks : List Nat := (progs.foldl (fun acc pr => pr.foldl (fun acc i => match i with
-    | .w k | .a k | .n k => if acc.contains k then acc else acc ++ [k]
+    | .w k | .a k | .n k | .t k _ => if acc.contains k then acc else acc ++ [k]
     | _ => acc) acc) [])
   let tr (i : TIns) : List Instr := match i with
     | .s t => match indexOf? tags t with | some x => [.spawn x] | none => []
@@ -146,6 +154,7 @@ def compile (sc : Script) : Compiled :=
     | .z d => [.sleep d]
     | .u t => [.sleepUntil t]
     | .n k => match indexOf? cks k with | some x => [.notifyAll x] | none => []
+    | .t k d => match indexOf? cks k with | some x => [.waitT x d] | none => []
   let trp (p : List TIns) : List Instr := p.foldr (fun i acc => tr i ++ acc) []
   { tags
     s0 := { tasks := sc.tasks.toList.map (fun (_, k, p) => { kind := k, prog := trp p })
@@ -245,9 +254,10 @@ def runCase (c : Case) : String := Id.run do
     let timed := (mlogE.filter fun x => x.origin == .timer).length
     let handed := (mlogE.filter fun x => x.origin == .outside).length
     let foreign := (mlogE.filter fun x => x.origin == .foreign).length
+    let timeouts := (sc.tasks.toList.map fun (_, _, pr) => (pr.filter fun i => match i with | .t _ _ => true | _ => false).length).foldl (· + ·) 0
     let burst := (mlog.map (·.1)).eraseDups.foldl (fun m t => max m (mlog.filter (·.1 == t)).length) 0
     let nt := ran ≥ 2 && links + timed + handed + foreign ≥ 1
-    return s!"ok {id} nt={if nt then 1 else 0} obs={obs} tasks={ran} links={links} timerwoken={timed} handedover={handed} crossmodule={foreign} silentpolls={fin.silent} burst={burst} over61={if burst > 61 then 1 else 0}"
+    return s!"ok {id} nt={if nt then 1 else 0} obs={obs} tasks={ran} links={links} timerwoken={timed} handedover={handed} crossmodule={foreign} silentpolls={fin.silent} timeouts={timeouts} burst={burst} over61={if burst > 61 then 1 else 0}"
   | _, _, _, _, _, _ => return s!"fail {id} op={op} kind=badline detail={ans}"
 
 def main (stdin : IO.FS.Stream) : IO Unit := do
